@@ -347,7 +347,7 @@ REG.contract('Scheduler._generate_current_schedule', world=SW,
                        'self.cluster._resources.idle', 'self.cluster.num_provisioned_obs', 'heap:WorkflowPlan.status', 'arg:task_pool',
                        'self.buffer.events', 'self.buffer.hot.0.current_capacity', 'self.buffer.hot.0.observations.finished',
                        'self.buffer.hot.0.observations.scheduled'],
-             props=['C04', 'C09', 'C13', 'C07', 'C01'])
+             props=['C04', 'C09', 'C13', 'C07', 'C01', 'C10'])
 
 
 # ---- allocate_tasks: the per-observation workflow process ---------------------------------------------------------------
@@ -437,3 +437,7 @@ REG.loop('Scheduler.to_df', 0, inv=lambda c: [], modifies_locals=['key', 'value'
 REG.contract('Scheduler.start', world=SW,
              ensures=lambda c: [('running', c.n.self.status.t == enum_code('SchedulerStatus', 'RUNNING'))],
              result='enum:SchedulerStatus', modifies=['self.status'], props=['C11'])
+
+
+# C10: the only place a wall-clock value may end up (the '*-algtime' columns are excluded by the property's statement)
+REG.nondet_sinks = {'algtime'}
